@@ -367,7 +367,7 @@ def sep(r, force):
         elif x < 0.6: parts.append("\t")
         elif x < 0.75: parts.append("\n")
         elif x < 0.8: parts.append("\r\n")
-        elif x < 0.9: parts.append("# cömment " + r.choice(["x", "€", "if ("]) + "\n")
+        elif x < 0.9: parts.append("# cömment " + r.choice(["x", "€", "if (", "a \x00 b"]) + "\n")
         else: parts.append("// c\n")
     return "".join(parts)
 
@@ -409,9 +409,9 @@ def gen_C19(rnd, n, tier):
         for ln in range(1, 5):
             for tup in itertools.product(alpha, repeat=ln):
                 src = "".join(tup); out.append(Case(lex_line(src), src, None, {"exh": True}, group=("exh", k))); k += 1
-    # the recorded finding F16 stays in the stream: a NUL inside a comment
+    # the repaired finding F16 stays in the stream: a NUL inside a comment is part of the comment
     ls = [("id", "lock"), ("id", "foo")]
-    out.append(Case(lex_line("lock # c \x00 bar\nfoo"), "lock # c \x00 bar\nfoo", None, {"ls": ls, "offs": [0, 17]}, group="F16"))
+    out.append(Case(lex_line("lock # c \x00 bar\nfoo"), "lock # c \x00 bar\nfoo", None, {"ls": ls, "offs": [0, 15]}, group="F16"))
     out.append(Case(lex_line("lock foo"), "lock foo", None, {"ls": ls, "offs": [0, 5]}, group="F16"))
     # compiled output is layout independent
     for i in range(max(10, n // 10)):
